@@ -73,7 +73,20 @@ func TestC08(t *testing.T) {
 	}
 	RunProbes(st, "C08")
 	rapid.Check(t, func(rt *rapid.T) {
-		sc, info := c08Scenario(rt, st)
+		var sc *Scenario
+		var info HostileInfo
+		switch rapid.IntRange(0, 5).Draw(rt, "family") {
+		case 0: // every era in mainnet's order (legacy graders, burns, PEG bank, 2.0, 2.0.2, mint, PIP-10)
+			sc = GenTimelineScenario(rt, DefaultCfg())
+			info.Kinds = []string{"timeline-all-eras"}
+			info.Structured = 1
+		case 1: // activation alignments, developer payouts, zeroing with prior balances, snapshots
+			sc, _ = GenIssuanceScenario(rt, st)
+			info.Kinds = []string{"issuance-activations"}
+			info.Structured = 1
+		default:
+			sc, info = c08Scenario(rt, st)
+		}
 		nt := ""
 		if info.Structured > 0 {
 			nt = fmt.Sprint(sc.Chain.Start, len(sc.Chain.Blocks), strings.Join(info.Kinds, ","), len(fmt.Sprint(sc.Summary())))
